@@ -171,6 +171,16 @@ func classify(dec string, pan interface{}, stack string) string {
 		strings.HasPrefix(fr[0], "https/jose.(*byteBuffer).base64") && strings.HasPrefix(fr[1], "https/jose.JsonWebEncryption.computeAuthData") {
 		return "C07/jwe-no-protected-header-nil-deref"
 	}
+	// an authenticated AES-CBC-HMAC ciphertext without a single block reaches the unpadding
+	if len(fr) >= 2 && strings.HasPrefix(fr[0], "https/jose/cipher.unpadBuffer") && strings.HasPrefix(fr[1], "https/jose/cipher.(*cbcAEAD).Open") &&
+		strings.Contains(msg, "index out of range [-1]") {
+		return "C07/cbc-hmac-empty-ciphertext-panic"
+	}
+	// a content encryption key of 31 bytes splits into a 15 byte MAC key (no hash chosen) and a valid AES-128 key
+	if len(fr) >= 2 && strings.HasPrefix(fr[0], "https/jose/cipher.(*cbcAEAD).computeAuthTag") && strings.HasPrefix(fr[1], "https/jose/cipher.(*cbcAEAD).Open") &&
+		strings.Contains(msg, "nil pointer dereference") {
+		return "C07/cbc-hmac-key-size-nil-hash-panic"
+	}
 	// Size() of a command packet counts the preset Null command object although the payload ended after the
 	// transaction id: p[n+1:] of n bytes
 	if m := oneBeyond.FindStringSubmatch(msg); m != nil && len(fr) >= 1 && m[1] != "" {
